@@ -6,5 +6,6 @@ export CARGO_NET_OFFLINE=true
 mkdir -p work evidence
 cd harness
 [ -f src/shapes.rs ] || python3 tools/gen_shapes.py src/shapes.rs
+[ -f src/bin/preconddrv.rs ] || python3 tools/gen_precond.py src/bin/preconddrv.rs
 [ -f src/bin/sched_q00.rs ] || python3 tools/gen_sched.py quick src
 cargo build --offline --release 2>&1 | tail -3
